@@ -62,6 +62,26 @@ def gen(tier, rng, harness, driver):
     return lines
 
 
+def extra(res, findings, tier, rng, harness, driver):
+    """"valid assembly" checked with LLVM 14 itself: the text printed for every construction scenario must be accepted by llvm-as"""
+    from . import llvmref
+    if not llvmref.available():
+        return {"llvm_reference": {"available": False}}
+    names = C.run_lines([harness, "run"], ["api.list"])[0].split(",")
+    outs = C.run_lines([harness, "run"], ["api.text " + n for n in names])
+    stats = {}
+    for n, o in zip(names, outs):
+        if o in ("skip", "panic") or not o:
+            stats["skipped"] = stats.get("skipped", 0) + 1
+            continue
+        text = bytes.fromhex(o).decode("latin-1")
+        _, st, msg = llvmref.assemble(text)
+        stats[st] = stats.get(st, 0) + 1
+        if st == "invalid":
+            res.violation("constructed IR (scenario %s) prints text that LLVM 14 rejects: %s" % (n, msg), {"ops": ["!api.fix " + n], "printed": text, "reference": "llvm-as-14"})
+    return {"llvm_reference": dict(stats, available=True, scenarios=len(names), tool="llvm-as-14")}
+
+
 nontrivial = pC01.nontrivial
 
 
